@@ -29,6 +29,7 @@ func init() {
 			{ID: "C04.R9", Floor: 2, Doc: "a received body is decompressed exactly when the header that was just read says so (=C18.R3)", Run: c18r3},
 			{ID: "C04.R13", Floor: 2, Doc: "every loop that takes the cells of a row with readColumn runs once per column of the metadata (range over the columns, or the length of a buffer made with len(columns))", Run: c04CellsPerRow},
 			{ID: "C04.R14", Floor: 1, Doc: "a slice that is grown with append is not made with a non-zero length first (module-wide; make([]T, n) then append keeps n zero entries in front)", Run: appendAfterSizedMake},
+			{ID: "C04.R15", Floor: 1, Doc: "a decoded list or set owns fresh storage: unmarshal functions size a slice destination only with a new reflect.MakeSlice, never by re-slicing the destination (SetLen / SetCap)", Run: c04FreshList},
 			{ID: "C04.R12", Floor: 1, Doc: "after the scanner moved to the next page nothing is read through a copy of the old page's iterator (=C15.R8)", Run: c04r12},
 			{ID: "C04.R11", Floor: 1, Doc: "(*RowData).rowMap stores a copy of every slice-valued cell: the scan destinations are reused for the next row", Run: c04r11},
 			{ID: "C04.R10", Floor: 3, Doc: "scanColumn hands every cell, null ones included, to Unmarshal unless the caller passed a nil destination", Run: c04r10},
